@@ -93,3 +93,20 @@ package crypto
 //@   requires aPrivKey != nil && bPubKey != nil
 //@   requires !ctxBuilt
 //@   ensures [context_binds_raw_identities] result1 == nil ==> ctxBuilt && ctxA == aPrivKey.GetPublic().Raw() && ctxB == bPubKey.Raw()
+
+// ---------------------------------------------------------------------------------------------
+// C05: every derived per-tree key owns its bytes: a key handed out by DeriveKey does not share memory
+// with the deriver's reusable buffer, so deriving the next generation cannot overwrite an earlier one.
+//@ package crypto/hmac
+//@ func New
+//@   modifies nothing
+//@   ensures result != nil
+//@ package github.com/anyproto/any-sync/util/crypto
+//@ func iface hash.Hash.Write
+//@   modifies nothing
+//@ func UnmarshallAESKey
+//@   modifies nothing
+//@   ensures result1 == nil ==> result0 != nil && result0.raw == k && fresh(result0)
+//@ func (*KeyDeriver).DeriveKey
+//@   requires d != nil
+//@   ensures [key_owns_its_bytes] result1 == nil ==> fresh(cast(result0, "*AESKey").raw)
